@@ -84,24 +84,28 @@ ENC = ["csvpath/csvpaths.py:CsvPaths.collect_paths/fast_forward_paths/next_paths
        "csvpath/util/error.py:ErrorHandler.handle_error/build", "csvpath/util/line_spooler.py:CsvLineSpooler"]
 
 
+POLICIES = {"rcp": ("raise, collect, print", None), "rcs/c": ("raise, collect, stop", "collect")}
+
+
 @ob(
     "C18",
     "O1-abort-record",
     pre=["-1 <= am <= {MHI}", "-1 <= ak <= {KHI}"],
     post="_ == abort_oracle(method, am, ak)",
     bound="group of 3 members over a 5-record file (quoted delimiter, embedded newline); abort point (member am, line ak) symbolic "
-    "over -1..MHI x -1..KHI = every abort point and 'no abort'; run method per shard; afterwards: exception reached the caller; "
+    "over -1..MHI x -1..KHI = every abort point and 'no abort'; run method and error policies per shard (csvpath policy 'raise, collect, print' with the default csvpaths policy, or 'raise, collect, stop' with a csvpaths policy that has no 'raise'); afterwards: exception reached the caller; "
     "run manifest status; per started member: meta/vars/errors readable, errors.json names line ak, manifest completed; inputs "
     "stores byte-identical; a second run on the same instance archives normally in its own run directory",
     outside="I/O faults; groups of 1, 2 or 4; files of more than 5 lines; the symbolic abort point is realised when the archive is "
     "written, so the solver drives a walk over the box (each path still ends in a z3-checked assertion)",
     encodes=ENC,
-    tiers={"quick": {"timeout": 1500, "K": {"MHI": 3, "KHI": 5}, "shards": product(method=["collect_paths", "collect_by_line"], am=[-1, 0, 1, 2]) + product(method=["next_paths", "fast_forward_paths", "fast_forward_by_line", "next_by_line"], am=[0, 2])},
-           "thorough": {"timeout": 5000, "K": {"MHI": 3, "KHI": 5}, "shards": product(method=list(SERIAL + BYLINE), am=[-1, 0, 1, 2, 3])}},
+    tiers={"quick": {"timeout": 1500, "K": {"MHI": 3, "KHI": 5}, "shards": product(method=["collect_paths", "collect_by_line"], am=[-1, 0, 1, 2]) + product(method=["next_paths", "fast_forward_paths", "fast_forward_by_line", "next_by_line"], am=[0, 2])
+                     + product(method=["collect_paths", "collect_by_line"], am=[1], pol=["rcs/c"])},
+           "thorough": {"timeout": 5000, "K": {"MHI": 3, "KHI": 5}, "shards": product(method=list(SERIAL + BYLINE), am=[-1, 0, 1, 2, 3]) + product(method=list(SERIAL + BYLINE), am=[0, 2], pol=["rcs/c"])}},
 )
-def abort_record(method: str, am: int, ak: int) -> Dict[str, object]:
+def abort_record(method: str, am: int, ak: int, pol: str = "rcp") -> Dict[str, object]:
     with NoTracing():
-        root, cs = kitpaths.env({"g": MEMBERS}, policy="raise, collect, print")
+        root, cs = kitpaths.env({"g": MEMBERS}, policy=POLICIES[pol][0], paths_policy=POLICIES[pol][1])
         before = kitpaths.tree_digest("inputs")
     kit.HOLD["symam"] = am
     kit.HOLD["symak"] = ak
